@@ -38,6 +38,12 @@ def _tric(rng):
 CUBIC = np.eye(3) * 3.0
 TETRA = np.diag([3.0, 3.0, 3.7])
 
+GCUB = [[1, 0, 0], [0, 1, 0], [0, 0, 1]]
+GTET = [[2, 0, 0], [0, 2, 0], [0, 0, 3]]
+GHEX3 = [[2, -1, 0], [-1, 2, 0], [0, 0, 3]]
+GHEX5 = [[2, -1, 0], [-1, 2, 0], [0, 0, 5]]
+GMONO = [[4, 0, 1], [0, 5, 0], [1, 0, 6]]
+
 NACL8 = [[0, 0, 0], [1, 0, 0], [0, 1, 1], [1, 1, 1], [1, 0, 1], [0, 0, 1], [1, 1, 0], [0, 1, 0]]
 
 # name, symbols, positions (numerators / D), D, lattice kind, supercell matrix, primitive matrix, sg?
@@ -60,15 +66,38 @@ SPECS = [
     dict(name="bccI", sym=["Na", "Na"], num=[[0, 0, 0], [1, 1, 1]], D=2, lat="cubic", S=[1, 1, 1], P="I", tier="quick"),
     dict(name="bccI112", sym=["Na", "Na"], num=[[0, 0, 0], [1, 1, 1]], D=2, lat="cubic", S=[1, 1, 2], P="I", tier="thorough"),
     dict(name="naclF", sym=["Na", "Cl"] * 4, num=NACL8, D=2, lat="cubic", S=[1, 1, 1], P="F", tier="quick"),
-    # space-group average (axis-aligned lattices: Cartesian rotations are integer matrices)
-    dict(name="sgsc112", sym=["Na"], num=[[0, 0, 0]], D=1, lat="cubic", S=[1, 1, 2], P=None, sg=True, tier="quick"),
-    dict(name="sgab111", sym=["Na", "Cl"], num=[[0, 0, 0], [1, 1, 1]], D=2, lat="cubic", S=[1, 1, 1], P=None, sg=True,
+    # space-group average.  Lattices are given by an integer Gram matrix (x a^2) and are realised, unless
+    # rot=False, under a random rigid rotation: the cell matrix is then NOT symmetric.  The arrays of these
+    # routes are in covariant components of the supercell lattice, where every operation is an integer matrix.
+    dict(name="sgsc112", sym=["Na"], num=[[0, 0, 0]], D=1, gram=GCUB, rot=True, S=[1, 1, 2], P=None, sg=True, tier="quick"),
+    dict(name="sgscnd2", sym=["Na"], num=[[0, 0, 0]], D=1, gram=GCUB, rot=False, S=[[1, 1, 0], [-1, 1, 0], [0, 0, 1]],
+         P=None, sg=True, tier="quick"),
+    dict(name="sghcp111", sym=["Na", "Na"], num=[[0, 0, 0], [2, 4, 3]], D=6, gram=GHEX3, rot=True, S=[1, 1, 1], P=None,
+         sg=True, tier="quick"),
+    dict(name="sgwz111", sym=["Na", "Na", "Cl", "Cl"], num=[[8, 16, 0], [16, 8, 12], [8, 16, 9], [16, 8, 21]], D=24,
+         gram=GHEX5, rot=True, S=[1, 1, 1], P=None, sg=True, tier="quick"),
+    dict(name="sgmono112", sym=["Na"], num=[[0, 0, 0]], D=1, gram=GMONO, rot=True, S=[1, 1, 2], P=None, sg=True,
+         tier="quick"),
+    dict(name="sgcu3au", sym=["Na", "Cl", "Cl", "Cl"], num=[[0, 0, 0], [1, 1, 0], [1, 0, 1], [0, 1, 1]], D=2, gram=GCUB,
+         rot=False, S=[1, 1, 1], P=None, sg=True, tier="quick"),
+    # catalogue crystals realised by harness/oracle.py (randomly oriented), with the exact integer spring-model
+    # force constants of spec/Springs.tla: they obey the full space group, permutation and translation symmetry
+    dict(name="orhcp111", oracle="hcp", S=[1, 1, 1], P=None, sg=True, tier="quick"),
+    dict(name="orhcp112", oracle="hcp", S=[1, 1, 2], P=None, sg=True, tier="thorough"),
+    dict(name="orwz111", oracle="wz", S=[1, 1, 1], P=None, sg=True, tier="thorough"),
+    dict(name="ortetab112", oracle="tetab", S=[1, 1, 2], P=None, sg=True, tier="thorough"),
+    dict(name="sgcu3aur", sym=["Na", "Cl", "Cl", "Cl"], num=[[0, 0, 0], [1, 1, 0], [1, 0, 1], [0, 1, 1]], D=2, gram=GCUB,
+         rot=True, S=[1, 1, 1], P=None, sg=True, tier="thorough"),
+    dict(name="sgab111", sym=["Na", "Cl"], num=[[0, 0, 0], [1, 1, 1]], D=2, gram=GCUB, rot=True, S=[1, 1, 1], P=None,
+         sg=True, tier="thorough"),
+    dict(name="sgab112", sym=["Na", "Cl"], num=[[0, 0, 0], [1, 1, 1]], D=2, gram=GTET, rot=True, S=[1, 1, 2], P=None,
+         sg=True, tier="thorough"),
+    dict(name="sgsc221", sym=["Na"], num=[[0, 0, 0]], D=1, gram=GCUB, rot=False, S=[2, 2, 1], P=None, sg=True,
          tier="thorough"),
-    dict(name="sgcu3au", sym=["Na", "Cl", "Cl", "Cl"], num=[[0, 0, 0], [1, 1, 0], [1, 0, 1], [0, 1, 1]], D=2, lat="cubic",
-         S=[1, 1, 1], P=None, sg=True, tier="quick"),
-    dict(name="sgsc221", sym=["Na"], num=[[0, 0, 0]], D=1, lat="cubic", S=[2, 2, 1], P=None, sg=True, tier="thorough"),
-    dict(name="sgab112", sym=["Na", "Cl"], num=[[0, 0, 0], [1, 1, 1]], D=2, lat="tetra", S=[1, 1, 2], P=None, sg=True,
-         tier="thorough"),
+    dict(name="sghcp112", sym=["Na", "Na"], num=[[0, 0, 0], [2, 4, 3]], D=6, gram=GHEX3, rot=True, S=[1, 1, 2], P=None,
+         sg=True, tier="thorough"),
+    dict(name="sghcpnd", sym=["Na", "Na"], num=[[0, 0, 0], [2, 4, 3]], D=6, gram=GHEX3, rot=False,
+         S=[[1, 1, 0], [-1, 0, 0], [0, 0, 1]], P=None, sg=True, tier="thorough"),
 ]
 
 
@@ -76,10 +105,28 @@ class RealSystem:
     def __init__(self, spec, rng):
         self.spec = spec
         self.name = spec["name"]
-        lat = dict(tric=lambda: _tric(rng), cubic=lambda: CUBIC.copy(), tetra=lambda: TETRA.copy())[spec["lat"]]()
-        cell = PhonopyAtoms(symbols=spec["sym"], scaled_positions=np.array(spec["num"], dtype=float) / spec["D"], cell=lat)
         S = spec["S"]
         S = np.diag(S) if np.ndim(S) == 1 else np.array(S)
+        self.orc = None
+        if "oracle" in spec:
+            from harness.oracle import Oracle
+
+            self.orc = Oracle(spec["oracle"], [S.tolist()], seed=int(rng.integers(1 << 30)))
+            self.a = self.orc.a
+            self.gram = np.array(self.orc.cr["G"], dtype=np.int64)
+            cell = self.orc.unitcell()
+        else:
+            if "gram" in spec:
+                from harness import xtal
+
+                self.a = 2.5
+                self.gram = np.array(spec["gram"], dtype=np.int64)
+                lat = xtal.lattice_from_gram(np.array(spec["gram"], dtype=float), a=self.a, rng=rng if spec["rot"] else None)
+            else:
+                lat = dict(tric=lambda: _tric(rng), cubic=lambda: CUBIC.copy(), tetra=lambda: TETRA.copy())[spec["lat"]]()
+            cell = PhonopyAtoms(symbols=spec["sym"], scaled_positions=np.array(spec["num"], dtype=float) / spec["D"],
+                                cell=lat)
+        self.S = S
         with contextlib.redirect_stdout(io.StringIO()):
             self.ph = Phonopy(cell, supercell_matrix=S, primitive_matrix=spec["P"], log_level=0)
         prim = self.ph.primitive
@@ -101,16 +148,20 @@ class RealSystem:
             self.ops = self._ops()
 
     def _ops(self):
-        """Space-group operations of the supercell as (integer Cartesian rotation, atom permutation)."""
+        """Space-group operations of the supercell as (integer rotation W in supercell lattice coordinates,
+        atom permutation), the frame F (rows = supercell lattice vectors) and its integer Gram matrix."""
         sym = self.ph.symmetry.get_symmetry_operations()
         sc = self.ph.supercell
-        L = sc.cell  # rows
+        L = np.array(sc.cell)  # rows
+        self.F = L
+        self.Finv = np.linalg.inv(L)
+        M = np.array(self.S).T
+        G = M @ self.gram @ M.T
+        assert np.abs(L @ L.T / self.a ** 2 - G).max() < 1e-9, "supercell lattice is not S^T L"
+        self.G = G
         pos = sc.scaled_positions
         out = []
         for r, t in zip(sym["rotations"], sym["translations"]):
-            Rc = L.T @ r @ np.linalg.inv(L.T)
-            Ri = np.rint(Rc)
-            assert np.abs(Rc - Ri).max() < 1e-9, "lattice not axis aligned"
             img = pos @ r.T + t
             perm = []
             for x in img:
@@ -119,14 +170,29 @@ class RealSystem:
                 k = np.where(np.abs(d @ L).max(axis=1) < 1e-5)[0]
                 assert len(k) == 1
                 perm.append(int(k[0]))
-            out.append(dict(R=Ri.astype(int).tolist(), perm=perm))
+            out.append(dict(W=np.array(r, dtype=int).tolist(), perm=perm))
         return out
+
+    def spring_fc(self):
+        """Exact spring-model force constants (integers, D^2 x covariant components of the SUPERCELL lattice)."""
+        idx, cell = self.orc.match_atoms(self.S.tolist(), self.ph.supercell)
+        T = np.array(cell["fc"], dtype=np.int64)[idx][:, idx]  # covariant components of the unit-cell lattice
+        M = np.array(self.S, dtype=np.int64).T
+        return reduce_gcd(np.einsum("ka,ijab,lb->ijkl", M, T, M))
+
+    # Phi_F = F Phi F^T (covariant lattice components)  <->  Cartesian Phi
+    def to_cart(self, xf):
+        return np.einsum("ka,ijab,lb->ijkl", self.Finv, np.asarray(xf, dtype=float), self.Finv)
+
+    def to_frame(self, x):
+        return np.einsum("ka,ijab,lb->ijkl", self.F, np.asarray(x, dtype=float), self.F)
 
     def record(self):
         rec = dict(np=self.np_, ns=self.ns, d=3, perms=self.perms.tolist(), p2s=self.p2s.tolist(), s2p=self.s2p.tolist(),
                    log_s2pp=self.log_s2pp.tolist(), log_nsym=self.log_nsym.tolist())
         if self.ops is not None:
             rec["ops"] = self.ops
+            rec["G"] = self.G.tolist()
         return rec
 
     # ---- integer definitions, only to PROPOSE inputs ---------------------
@@ -147,10 +213,10 @@ class RealSystem:
     def sg_mean(self, f):
         acc = np.zeros_like(f)
         for op in self.ops:
-            R = np.array(op["R"], dtype=np.int64)
+            W = np.array(op["W"], dtype=np.int64)
             p = np.array(op["perm"])
             g = f[p][:, p]
-            acc += np.einsum("ak,ijab,bl->ijkl", R, g, R)
+            acc += np.einsum("ak,ijab,bl->ijkl", W, g, W)
         return reduce_gcd(acc)
 
 
@@ -191,7 +257,7 @@ def project(a, K, flags):
         return UNREPRESENTABLE
     resid = float(np.abs(y - r).max(initial=0.0)) / K
     flags["resid"] = max(flags.get("resid", 0.0), resid)
-    if resid > TOL:
+    if resid > TOL * max(1.0, float(np.abs(a).max(initial=0.0))):
         flags["exact"] = False
     if not np.array_equal(y, r):
         flags["bitexact"] = False
@@ -336,6 +402,13 @@ def api_sg(rs, x):
     return np.array(ph.force_constants)
 
 
+def fn_sg_direct(rs, x):
+    a = f64(x)
+    sc = rs.ph.supercell
+    FCM.set_tensor_symmetry_PJ(a, sc.cell.T, sc.scaled_positions, rs.ph.symmetry)
+    return a
+
+
 def execute(rs, route, level, x, via_api=True):
     """Run one case on the real code; return the obs record (literals)."""
     ns = rs.ns
@@ -382,10 +455,13 @@ def execute(rs, route, level, x, via_api=True):
         obs["back"] = project(fn_expand(rs, out), 1, f2)
         fl["exact"] = fl["exact"] and f2["exact"]
     elif route == "sg":
+        # x is given in covariant lattice components; the real calls work on the Cartesian array
         K = len(rs.ops)
-        out = api_sg(rs, x)
-        obs["out"] = project(out, K, fl)
-        obs["again"] = same_or(api_sg(rs, out), obs["out"], K, fl, also_bit=False)
+        xc = rs.to_cart(x)
+        outc = api_sg(rs, xc)
+        obs["out"] = project(rs.to_frame(outc), K, fl)
+        obs["direct"] = project(rs.to_frame(fn_sg_direct(rs, xc)), K, fl)
+        obs["again"] = same_or(rs.to_frame(api_sg(rs, outc)), obs["out"], K, fl, also_bit=False)
     else:
         raise ValueError(route)
     obs["exact"] = bool(fl["exact"])
